@@ -55,8 +55,11 @@ def check_C01(fx, eng, rep, tier):
     rep.rule_text = 'C01.ADM / C01.REL / C01.STORE / C01.ROWS / C01.WHO / C10.UPG / C10.DOWN / C13.LOCKEXIT (+ MCS.* for MCSLock); one instance per (function, path class, write)'
     rep.trusted = ['clang 14 AST/CFG', 'cxxfacts extractor', 'induction over atomic steps (DESIGN.md 3.0)', 'S counter never overflows its field']
     rep.assumptions = ['fewer than 2^62 / 2^30 / 2^15 simultaneous shared holders', 'MCS: user-space addresses fit in 47 bits']
-    _locks(fx, eng, rep, ALL_LOCKS, ['C01.', 'C10.UPG', 'C10.DOWN', 'C13.LOCKEXIT', 'MCS.'],
-           {'PessimisticLock': 20, 'OptimisticLock': 35, 'MCSLock': 20})
+    res = _locks(fx, eng, rep, ALL_LOCKS, ['C01.', 'C10.UPG', 'C10.DOWN', 'C13.LOCKEXIT', 'MCS.', 'C07.CONV', 'C07.FACTORY', 'C07.WHO'],
+                 {'PessimisticLock': 20, 'OptimisticLock': 35, 'MCSLock': 20})
+    # the invariant counts grants: every grant is released exactly once, on the lock it was taken on (guard typestate, C07)
+    import guards
+    guards.check_guards(fx, eng, rep, ALL_LOCKS, res, typestate_only=True)
 
 
 def check_C10(fx, eng, rep, tier):
@@ -171,7 +174,7 @@ def check_C11(fx, eng, rep, tier):
                        'the premises of the hand argument that no later conflicting arrival is granted first.')
     rep.rule_text = 'C11.TAIL, MCS.PUB, MCS.INH, MCS.LINK, MCS.WAIT, MCS.CLR, MCS.DRAIN per function and path class'
     rep.trusted = ['clang 14 AST/CFG', 'field abstraction of lock and node words', 'hand argument DESIGN.md C11', 'addresses fit in 47 bits']
-    _locks(fx, eng, rep, ['MCSLock'], ['C11.', 'MCS.PUB', 'MCS.INH', 'MCS.LINK', 'MCS.WAIT', 'MCS.CLR', 'MCS.DRAIN'], {'MCSLock': 20})
+    _locks(fx, eng, rep, ['MCSLock'], ['C11.', 'MCS.PUB', 'MCS.INH', 'MCS.LINK', 'MCS.WAIT', 'MCS.CLR', 'MCS.DRAIN', 'MCS.UPG', 'MCS.DOWN', 'MCS.CONV'], {'MCSLock': 20})
 
 
 def check_C12(fx, eng, rep, tier):
